@@ -881,3 +881,82 @@ package query
 //@   assert after call query.Evaluate: [iteration-starts-in-a-cleared-block] !blockDirty
 //@   ensures [break-ends-the-loop-normally] result1 == nil ==> result0 == Terminate || result0 == Exit || result0 == Return
 //@   modifies *
+
+// ---------------------------------------------------------------------------------------------
+// C17: window frames (ROWS BETWEEN ...): one frame per row of the partition, bounds as the clause says; the whole
+// partition as a single frame only without ORDER BY or for UNBOUNDED PRECEDING .. UNBOUNDED FOLLOWING
+//@ spec def wcl(e parser.AnalyticClause) parser.WindowingClause = as(e.WindowingClause, parser.WindowingClause)
+//@ spec def lowPos(e parser.AnalyticClause) parser.WindowFramePosition = as(wcl(e).FrameLow, parser.WindowFramePosition)
+//@ spec def highPos(e parser.AnalyticClause) parser.WindowFramePosition = as(wcl(e).FrameHigh, parser.WindowFramePosition)
+//@ spec def frameIdx(current int, length int, dir int, unbounded bool, offset int) int =
+//@     ite(dir == parser.CURRENT, current, ite(dir == parser.PRECEDING, ite(unbounded, 0, current - offset),
+//@     ite(dir == parser.FOLLOWING, ite(unbounded, length - 1, current + offset), 0)))
+//@ spec def lowIdx(e parser.AnalyticClause, current int, length int) int = ite(e.WindowingClause == nil, 0,
+//@     frameIdx(current, length, lowPos(e).Direction.Token, lowPos(e).Unbounded.Token != 0, lowPos(e).Offset))
+//@ spec def highIdx(e parser.AnalyticClause, current int, length int) int = ite(e.WindowingClause == nil || wcl(e).FrameHigh == nil, current,
+//@     frameIdx(current, length, highPos(e).Direction.Token, highPos(e).Unbounded.Token != 0, highPos(e).Offset))
+//@ spec def wholePartition(e parser.AnalyticClause) bool = e.OrderByClause == nil ||
+//@     (e.WindowingClause != nil && wcl(e).FrameHigh != nil && lowPos(e).Direction.Token == parser.PRECEDING && lowPos(e).Unbounded.Token != 0 &&
+//@      highPos(e).Direction.Token == parser.FOLLOWING && highPos(e).Unbounded.Token != 0)
+
+//@ func WindowFrameSet$2
+//@   property C17
+//@   requires 0 <= length && -4611686018427387904 < current && current < 4611686018427387904 && -4611686018427387904 < framePosition.Offset && framePosition.Offset < 4611686018427387904
+//@   ensures [definition] result == frameIdx(current, length, framePosition.Direction.Token, framePosition.Unbounded.Token != 0, framePosition.Offset)
+//@   modifies nothing
+
+//@ func WindowFrameSet$1
+//@   property C17
+//@   safety
+//@   ensures [one-frame-over-the-partition] len(result) == 1 && fresh(result) && result[0].Low == 0 && result[0].High == len(partition) - 1 &&
+//@       len(result[0].Records) == len(partition) && forall(q, 0, len(partition), result[0].Records[q] == partition[q])
+//@   loop 1 invariant 0 <= $i && $i <= len(partition) && len(indices) == len(partition) && fresh(indices) && forall(q, 0, $i, indices[q] == partition[q])
+//@   loop 1 modifies indices[*]
+//@   modifies nothing
+
+//@ func WindowFrameSet
+//@   property C17
+//@   safety
+//@   requires expr.WindowingClause != nil ==> is(expr.WindowingClause, parser.WindowingClause) && is(wcl(expr).FrameLow, parser.WindowFramePosition) &&
+//@       (wcl(expr).FrameHigh != nil ==> is(wcl(expr).FrameHigh, parser.WindowFramePosition)) &&
+//@       -4611686018427387904 < lowPos(expr).Offset && lowPos(expr).Offset < 4611686018427387904 &&
+//@       (wcl(expr).FrameHigh != nil ==> -4611686018427387904 < highPos(expr).Offset && highPos(expr).Offset < 4611686018427387904)
+//@   ensures [whole-partition-only-when-specified] wholePartition(expr) ==> len(result) == 1 && result[0].Low == 0 && result[0].High == len(partition) - 1 &&
+//@       len(result[0].Records) == len(partition) && forall(q, 0, len(partition), result[0].Records[q] == partition[q])
+//@   ensures [one-frame-per-row] !wholePartition(expr) ==> len(result) == len(partition) && forall(c, 0, len(partition),
+//@       result[c].Low == lowIdx(expr, c, len(partition)) && result[c].High == highIdx(expr, c, len(partition)) &&
+//@       len(result[c].Records) == 1 && result[c].Records[0] == partition[c])
+//@   loop 1 invariant 0 <= current && current <= length && length == len(partition) && len(frameSet) == current && fresh(frameSet) && !wholePartition(expr)
+//@   loop 1 invariant (expr.WindowingClause == nil || wcl(expr).FrameHigh == nil) && (expr.WindowingClause != nil ==> same(frameLow, lowPos(expr))) &&
+//@       (expr.WindowingClause == nil ==> frameLow.Direction.Token == parser.PRECEDING && frameLow.Unbounded.Token == parser.UNBOUNDED)
+//@   loop 1 invariant forall(c, 0, current, frameSet[c].Low == lowIdx(expr, c, length) && frameSet[c].High == c && len(frameSet[c].Records) == 1 && frameSet[c].Records[0] == partition[c])
+//@   loop 1 modifies fresh
+//@   loop 2 modifies fresh
+//@   loop 2 invariant 0 <= current && current <= length && length == len(partition) && len(frameSet) == current && fresh(frameSet) && !wholePartition(expr)
+//@   loop 2 invariant expr.WindowingClause != nil && wcl(expr).FrameHigh != nil && same(frameLow, lowPos(expr)) && same(frameHigh, highPos(expr))
+//@   loop 2 invariant forall(c, 0, current, frameSet[c].Low == lowIdx(expr, c, length) && frameSet[c].High == highIdx(expr, c, length) && len(frameSet[c].Records) == 1 && frameSet[c].Records[0] == partition[c])
+//@   modifies nothing
+
+// NTILE(n): rows of a partition of T rows are dealt into tiles in order; with q = T div n and m = T mod n the first m
+// tiles get q+1 rows and the others q rows (T < n: one row per tile). Closed form without division:
+// tile v holds the positions (1-based) in ( (v-1)*q + min(v-1,m) , v*q + min(v,m) ].
+//@ spec def ntQ(T int, n int) int = ite(T / n < 1, 1, T / n)
+//@ spec def ntM(T int, n int) int = ite(T / n < 1, 0, T % n)
+//@ spec def tileOk(v int, pos int, q int, m int) bool = (v - 1) * q + min(v - 1, m) < pos && pos <= v * q + min(v, m)
+//@ spec def distinctRows(p Partition) bool = forall(a, 0, len(p), forall(b, 0, len(p), a != b ==> p[a] != p[b]))
+
+//@ func (NTile).Execute
+//@   property C17 C19
+//@   safety
+//@   requires distinctRows(partition) && len(expr.Args) >= 1
+//@   ensures [invalid-tile-count-is-error] result1 == nil ==> value.intLooseOk(lastEval) && value.intLooseOf(lastEval) >= 1
+//@   ensures [each-row-gets-its-tile] result1 == nil ==> forall(k, 0, len(partition), has(result0, partition[k]) && is(result0[partition[k]], *value.Integer) &&
+//@       tileOk(as(result0[partition[k]], *value.Integer).value, k + 1, ntQ(len(partition), value.intLooseOf(lastEval)), ntM(len(partition), value.intLooseOf(lastEval))))
+//@   loop 1 invariant 0 <= $i && $i <= len(partition) && list != nil && fresh(list) && tileNumber == value.intLooseOf(lastEval) && tileNumber >= 1 && value.intLooseOk(lastEval)
+//@   loop 1 invariant total == len(partition) && perTile == ntQ(total, tileNumber) && tile >= 1 && 0 <= count && count <= perTile + ite(tile - 1 < ntM(total, tileNumber), 1, 0)
+//@   loop 1 invariant $i == (tile - 1) * perTile + min(tile - 1, ntM(total, tileNumber)) + count
+//@   loop 1 invariant mod == ntM(total, tileNumber) - min(tile - 1, ntM(total, tileNumber)) - ite(count == perTile + 1, 1, 0)
+//@   loop 1 invariant forall(k, 0, $i, has(list, partition[k]) && is(list[partition[k]], *value.Integer) &&
+//@       tileOk(as(list[partition[k]], *value.Integer).value, k + 1, perTile, ntM(total, tileNumber)))
+//@   loop 1 modifies fresh
+//@   modifies *
